@@ -120,7 +120,7 @@ def topo_configs(repo, rng, tier):
     syn = ["pack:2 [numa] core:2 pu:2", "pu:1", "numa:6 pu:2", "pack:3 core:2 pu:1", "[numa] [numa] pack:2 pu:3",
            "group:2 numa:2 l2:2 pu:20"]
     if tier == "thorough":
-        syn += ["numa:9 core:4 pu:2", "pack:1 pu:65", "numa:2 pack:2 [numa] pu:4"]
+        syn += ["numa:9 core:4 pu:2", "pack:1 pu:65", "pack:2 [numa] [numa] core:2 pu:4"]
     cfgs = []
     for s in syn:
         cfgs.append(("syn:" + s, ["src synthetic " + s], "synthetic", False, None))
